@@ -4,11 +4,25 @@ Over the L4 model with urgency (time passes only while no library thread can mov
 namespace Ynca.C12
 open Ynca.L4 Ynca.L4.C12L
 
-/-- the connection is up and healthy: sender running, reader not in `connection_lost`, no close() begun,
+/-- the connection is up and healthy: sender running, reader not in `connection_lost`, no close() begun
+    (neither one that cleared the disconnect callback, `closeStarted`, nor one entered while `connect()` had
+    not completed, `closeUnpub` — that one skips the clearing step but stops the transport all the same),
     no write error -/
 def Up (s : St) : Prop :=
   s.spc ≠ .notStarted ∧ s.spc ≠ .done ∧ s.spc ≠ .dead ∧ lossBegun s.rpc = false ∧
-  s.closeStarted = false ∧ s.writeFault = false ∧ s.portOpen = true
+  s.closeStarted = false ∧ s.closeUnpub = false ∧ s.writeFault = false ∧ s.portOpen = true
+
+/-- the added conjunct of `Up` costs nothing once `connect()` has returned: a close() can take the
+    unpublished path only while `_protocol` is unassigned, so on a published connection on which no such close()
+    was entered before, none is ever entered (both facts are preserved by every step) -/
+theorem C12_no_unpublished_close_once_published (P : Params) (s s' : St) (l : Label) (o : Option Obs)
+    (hp : s.published = true) (hu : s.closeUnpub = false) (h : step P s l = some (s', o)) :
+    s'.published = true ∧ s'.closeUnpub = false := by
+  cases l <;> simp only [step] at h
+  case s => l4_split_s h <;> simp_all [enqueue]
+  case r => l4_split_r h <;> simp_all [enqueue]
+  case u t => l4_split_u h <;> simp_all
+  all_goals l4_split_other h <;> simp_all
 
 /-- **gap**: while the connection is up, the time since the last transmission (since the connection was
     made, before the first one) never exceeds one command spacing plus the keep-alive interval -/
